@@ -147,6 +147,23 @@ pub struct Rig {
     raw_fd: libc::c_int,
 }
 
+/// a UDP datagram to 127.0.0.1:`port` whose source port is 0 (hand-made UDP header, checksum 0 = none)
+fn send_unroutable_raw(raw_fd: libc::c_int, port: u16, bytes: &[u8]) -> bool {
+    if raw_fd < 0 { return false; }
+    let mut pkt = Vec::with_capacity(8 + bytes.len());
+    pkt.extend_from_slice(&0u16.to_be_bytes());
+    pkt.extend_from_slice(&port.to_be_bytes());
+    pkt.extend_from_slice(&((8 + bytes.len()) as u16).to_be_bytes());
+    pkt.extend_from_slice(&0u16.to_be_bytes());
+    pkt.extend_from_slice(bytes);
+    let mut sa: libc::sockaddr_in = unsafe { std::mem::zeroed() };
+    sa.sin_family = libc::AF_INET as libc::sa_family_t;
+    sa.sin_addr.s_addr = u32::from_ne_bytes([127, 0, 0, 1]);
+    let n = unsafe { libc::sendto(raw_fd, pkt.as_ptr() as *const libc::c_void, pkt.len(), 0,
+                                  &sa as *const libc::sockaddr_in as *const libc::sockaddr, std::mem::size_of::<libc::sockaddr_in>() as libc::socklen_t) };
+    n == pkt.len() as isize
+}
+
 fn hc_connect_one(port: u16, aborted: bool, streams: &Rc<RefCell<Vec<std::net::TcpStream>>>) {
     if let Ok(s) = std::net::TcpStream::connect(("127.0.0.1", port)) {
         if aborted {
@@ -224,6 +241,7 @@ impl Rig {
         let hc_port = self.hc_port;
         let socks: Vec<UdpSocket> = self.clients.iter().map(|c| c.try_clone().unwrap()).collect();
         let addr = self.addr;
+        let raw_fd = self.raw_fd;
         verif::set_tracer(Some(Box::new(move |e: &verif::Event| {
             if e.name == "recv" { *recv_count.borrow_mut() += 1; }
             let n = { let mut c = counts.borrow_mut(); let x = c.entry(e.name.to_string()).or_insert(0); *x += 1; *x };
@@ -231,7 +249,7 @@ impl Rig {
             if let Some(list) = inject.borrow_mut().remove(&(e.name.to_string(), n)) {
                 for (s, bytes) in list {
                     injected_at.borrow_mut().push((s, bytes[..bytes.len().min(48)].to_vec(), now_ns()));
-                    let _ = socks[s].send_to(&bytes, addr);
+                    if s == UNROUTABLE { send_unroutable_raw(raw_fd, addr.port(), &bytes); } else { let _ = socks[s].send_to(&bytes, addr); }
                 }
             }
             if let Some(list) = inject_tcp.borrow_mut().remove(&(e.name.to_string(), n)) {
@@ -248,22 +266,7 @@ impl Rig {
 
     pub fn can_spoof(&self) -> bool { self.raw_fd >= 0 }
 
-    /// a UDP datagram to the server whose source port is 0 (hand-made UDP header, checksum 0 = none)
-    fn send_unroutable(&self, bytes: &[u8]) -> bool {
-        if self.raw_fd < 0 { return false; }
-        let mut pkt = Vec::with_capacity(8 + bytes.len());
-        pkt.extend_from_slice(&0u16.to_be_bytes());
-        pkt.extend_from_slice(&self.addr.port().to_be_bytes());
-        pkt.extend_from_slice(&((8 + bytes.len()) as u16).to_be_bytes());
-        pkt.extend_from_slice(&0u16.to_be_bytes());
-        pkt.extend_from_slice(bytes);
-        let mut sa: libc::sockaddr_in = unsafe { std::mem::zeroed() };
-        sa.sin_family = libc::AF_INET as libc::sa_family_t;
-        sa.sin_addr.s_addr = u32::from_ne_bytes([127, 0, 0, 1]);
-        let n = unsafe { libc::sendto(self.raw_fd, pkt.as_ptr() as *const libc::c_void, pkt.len(), 0,
-                                      &sa as *const libc::sockaddr_in as *const libc::sockaddr, std::mem::size_of::<libc::sockaddr_in>() as libc::socklen_t) };
-        n == pkt.len() as isize
-    }
+    fn send_unroutable(&self, bytes: &[u8]) -> bool { send_unroutable_raw(self.raw_fd, self.addr.port(), bytes) }
 
     /// schedule datagrams to be sent at the moment the server has received its k-th datagram of this pump
     pub fn plan_injection(&self, at_recv: usize, sock: usize, bytes: Vec<u8>) {
@@ -298,7 +301,7 @@ impl Rig {
                 let pending: Vec<(usize, Vec<u8>)> = self.inject.borrow_mut().drain().flat_map(|(_, v)| v).collect();
                 if !pending.is_empty() {
                     self.drifted += pending.len();
-                    for (s, b) in pending { let _ = self.clients[s].send_to(&b, self.addr); }
+                    for (s, b) in pending { let _ = self.send(s, &b); }
                     continue;
                 }
                 wedged = true;   // went idle (poll timed out) with datagrams outstanding
